@@ -8,6 +8,7 @@ import (
 	"errors"
 	"fmt"
 	"strings"
+	"sync/atomic"
 	"time"
 
 	regexp2 "github.com/dlclark/regexp2/v2"
@@ -210,6 +211,7 @@ func runC13(c *Ctx) {
 	if thorough {
 		add("BAL", balFamily(), "", profP0, 5)
 	}
+	c13Big(c)
 	// (ii) STACK sweep relative to each pattern's own initial allocation
 	stack := stackFamily()
 	fs := c.Fam("STACK every L in [0, 4*T0+16]")
@@ -276,6 +278,70 @@ func runC13(c *Ctx) {
 	})
 
 	c.Sample(map[string]any{"family": "STACK", "pattern": stack[len(stack)/2].Src, "example_input": string(ins[4]), "limits": "every L from 0 to 4*T0+16"})
+}
+
+// c13Big: calls that make the backtracking stack very large (tens of thousands of frames), under no limit, the default
+// limit and a small one; afterwards the same Regexp must answer small probes exactly like a fresh one, call after call.
+func c13Big(c *Ctx) {
+	fs := c.Fam("BIG stacks, then probes on the same Regexp")
+	pats := []string{`^(?:ab|b)*c$`, `(?:a|b)*c`, `^(a|ab)*?c$`, `(?:(a)|(b))*c`}
+	sizes := []int{10, 1000, 5000, 9000, 17000, 33000, 40000}
+	limits := []int{-1, 100000, 1000}
+	probes := []string{"abc", "ab", "c", "aabbc"}
+	type cs struct {
+		p    string
+		n, L int
+	}
+	var all []cs
+	for _, p := range pats {
+		for _, n := range sizes {
+			for _, L := range limits {
+				all = append(all, cs{p, n, L})
+			}
+		}
+	}
+	var evals, nt int64
+	done := c.parallel(len(all), func(i int) {
+		k := all[i]
+		re, err := regexp2.Compile(k.p, regexp2.OptionMaxBacktrackingStackSize(k.L))
+		ref, _ := regexp2.Compile(k.p, regexp2.OptionMaxBacktrackingStackSize(-1))
+		if err != nil {
+			return
+		}
+		big := strings.Repeat("ab", k.n) + "c"
+		key := fmt.Sprintf("big|L=%d n=%d|%s", k.L, k.n, k.p)
+		want := fromMatch(ref.FindStringMatch(big))
+		got := fromMatch(re.FindStringMatch(big))
+		atomic.AddInt64(&evals, 1)
+		limited := got.err != "" && strings.Contains(got.err, "backtracking stack")
+		if limited {
+			atomic.AddInt64(&nt, 1)
+		}
+		if !limited && !got.equal(want) {
+			c.Report(Violation{Leg: "big-result", Key: key, Pattern: k.p, Input: fmt.Sprintf("(ab)^%d c", k.n), Detail: fmt.Sprintf("limit %d: result %s differs from the unlimited result %s", k.L, got, want)})
+			return
+		}
+		for round := 0; round < 8; round++ {
+			for _, pr := range probes {
+				fresh, _ := regexp2.Compile(k.p, regexp2.OptionMaxBacktrackingStackSize(k.L))
+				w := fromMatch(fresh.FindStringMatch(pr))
+				g := fromMatch(re.FindStringMatch(pr))
+				wb, we := fresh.MatchString(pr)
+				gb, ge := re.MatchString(pr)
+				atomic.AddInt64(&evals, 2)
+				if !g.equal(w) || gb != wb || (ge == nil) != (we == nil) {
+					c.Report(Violation{Leg: "big-usable", Key: key, Pattern: k.p, Input: q(pr), Detail: fmt.Sprintf("limit %d: after a call on (ab)^%d c (result %s) the same Regexp answers %s / %v,%v on %q in round %d; a fresh one answers %s / %v,%v", k.L, k.n, got, g, gb, ge, pr, round, w, wb, we)})
+					return
+				}
+			}
+		}
+	}, func(i int, r any) {
+		k := all[i]
+		c.Report(Violation{Leg: "panic", Key: fmt.Sprintf("big-panic|L=%d n=%d|%s", k.L, k.n, k.p), Pattern: k.p, Detail: panicText(r)})
+	})
+	fs.Patterns, fs.Evaluations, fs.Nontrivial, fs.Complete = int64(len(all)), evals, nt, done
+	c.Eval(evals)
+	c.Nontrivial(nt)
 }
 
 func replayC13(v Violation) (bool, string) {
